@@ -18,6 +18,7 @@ type tval struct {
 	typ types.Type
 	pkg *types.Package // non-nil: this is a package name
 	isNil bool
+	cell *Addr // non-nil: a variable living in memory; its value is read in the state of evaluation
 }
 
 var untypedInt = types.Typ[types.UntypedInt]
@@ -150,6 +151,10 @@ func (x *ExprEnv) ident(name string) tval {
 		return tval{t: "0", typ: types.Typ[types.UntypedNil], isNil: true}
 	}
 	if v, ok := x.vars[name]; ok {
+		if v.cell != nil {
+			v.t = x.e.load(x.fr, x.st, v.cell)
+			v.cell = nil
+		}
 		return v
 	}
 	if g, ok := x.e.ghost[name]; ok {
@@ -251,7 +256,16 @@ func (x *ExprEnv) eqTerm(a, b tval) string {
 }
 
 func (x *ExprEnv) binary(n *ast.BinaryExpr) tval {
-	a, b := x.tr(n.X), x.tr(n.Y)
+	a := x.tr(n.X)
+	// short circuit on statically decided operands (typeis on a concrete receiver): the other operand
+	// need not even be well formed for this receiver type
+	if n.Op == token.LOR && a.t == "true" {
+		return tval{t: "true", typ: types.Typ[types.Bool]}
+	}
+	if n.Op == token.LAND && a.t == "false" {
+		return tval{t: "false", typ: types.Typ[types.Bool]}
+	}
+	b := x.tr(n.Y)
 	bt := types.Typ[types.Bool]
 	e := x.e
 	srt := e.d.sortOf(a.typ)
@@ -463,6 +477,13 @@ func (x *ExprEnv) call(n *ast.CallExpr) tval {
 			if err != nil {
 				return x.errf("%v", err)
 			}
+			if _, isI := a.typ.Underlying().(*types.Interface); !isI {
+				// a value of static (concrete) type: decided by the types
+				if types.Identical(a.typ, t) {
+					return tval{t: "true", typ: bt}
+				}
+				return tval{t: "false", typ: bt}
+			}
 			return tval{t: fmt.Sprintf("(= (itag %s) %d)", a.t, e.d.tag(t)), typ: bt}
 		}
 		if sf, ok := e.spec.specFns[id.Name]; ok {
@@ -501,7 +522,7 @@ func (x *ExprEnv) call(n *ast.CallExpr) tval {
 					return x.errf("interface method with %d results", sig.Results().Len())
 				}
 				rt := sig.Results().At(0).Type()
-				name := "IM_" + typeKey(b.typ) + "_" + fo.Name() + "_0"
+				name := "IM_" + astIfaceKey(b.typ) + "_" + fo.Name() + "_0"
 				if nt, ok := b.typ.(*types.Named); ok && nt.Obj().Pkg() != nil && e.w.mine[nt.Obj().Pkg()] && !e.w.pureIfaceMethod(b.typ, fo) && e.w.readerIfaceMethod(b.typ, fo) {
 					name = fmt.Sprintf("IMv%d_%s_%s_0", x.st.ver, typeKey(b.typ), fo.Name())
 				}
@@ -618,6 +639,15 @@ func (x *ExprEnv) funcCall(fn *ssa.Function, recv *tval, argx []ast.Expr) tval {
 		return x.errf("call of %s: %d results", fn.Name(), res.Len())
 	}
 	rt := res.At(0).Type()
+	if e.readerUF(fn) {
+		name := e.readerName(fn, x.st) + "_0"
+		var sorts []string
+		for _, p := range fn.Params {
+			sorts = append(sorts, e.d.sortOf(p.Type()))
+		}
+		e.d.decl(name, "("+strings.Join(sorts, " ")+") "+e.d.sortOf(rt))
+		return tval{t: "(" + name + " " + strings.Join(args, " ") + ")", typ: rt}
+	}
 	if e.quant == 0 && e.willInline(fn, 1) && e.spec.contractFor(fn) == nil {
 		saveCur := e.cur
 		rs, _ := e.inlineFn(x.fr, x.st, fn, args, nil, nil, false)
